@@ -35,6 +35,12 @@ class SSP(Sym):
     def sym_isinstance(self, ex, cls):
         return cls in (dict, object)
 
+    def sym_truth(self, ex):
+        return SP_NONEMPTY(self.e)       # a mapping is falsy iff it is empty
+
+
+SP_NONEMPTY = z3.Function("sp_nonempty", SPv, z3.BoolSort())
+
 
 def spv_of(v):
     """SPv term of a value passed where a state point is expected."""
